@@ -103,7 +103,7 @@ def opmatrix(op, domain=None, range=None):
     off = flat(op(unflat(np.zeros(n), dom)), ran)
     M = np.empty((m, n))
     eye = np.eye(n)
-    for k in range(n):
+    for k in np.arange(n):
         M[:, k] = flat(op(unflat(eye[k], dom)), ran) - off
     return M, off
 
